@@ -170,3 +170,49 @@ Fixpoint dist_bfs (step : (St -> option Z) -> St -> option Z)
   end.
 
 End Dist.
+
+(** ** saturation, at the level of sets of states.
+
+    The transition relation is partitioned into events grouped by the level of
+    their top variable ([lv]: one relation per level, top level first).
+    Saturating at a level means: saturate all lower levels, fire the level's
+    own events once, and repeat until nothing changes -- the nested fixed
+    point that the saturation operations in src/operations/sat_*.cc compute
+    node by node.  [fire_seq] is the general form: any sequence of firings of
+    single events restricted to arbitrary subsets of the current set. *)
+Section Saturation.
+Variable St : Type.
+Variable states : list St.
+
+Definition union_rel (evs : list (St -> St -> bool)) : St -> St -> bool :=
+  fun x y => existsb (fun e => e x y) evs.
+
+Fixpoint sat_loop (sub : (St -> bool) -> option (St -> bool)) (E : St -> St -> bool)
+         (n : nat) (S : St -> bool) : option (St -> bool) :=
+  match n with
+  | O => None
+  | Datatypes.S n' =>
+      match sub S with
+      | None => None
+      | Some S1 =>
+          let S2 := fun y => S1 y || img St states E S1 y in
+          if same_set St states S S2 then Some S else sat_loop sub E n' S2
+      end
+  end.
+
+Fixpoint saturate (lv : list (St -> St -> bool)) (fuel : nat) (S : St -> bool)
+  : option (St -> bool) :=
+  match lv with
+  | [] => Some S
+  | E :: lower => sat_loop (saturate lower fuel) E fuel S
+  end.
+
+(** one firing: event [e], restricted to the sources selected by [sel] *)
+Definition fire (e : St -> St -> bool) (sel : St -> bool) (S : St -> bool) : St -> bool :=
+  fun y => S y || img St states e (fun x => S x && sel x) y.
+
+Definition fire_seq (sched : list ((St -> St -> bool) * (St -> bool))) (S : St -> bool)
+  : St -> bool :=
+  fold_left (fun S p => fire (fst p) (snd p) S) sched S.
+
+End Saturation.
